@@ -67,13 +67,13 @@ Inductive path :=
 | PStatic          (* static T x = e;     declaration checks a clamped copy, StaticVariableManager::create_static_variable stores evaluate(init) raw *)
 | PIncDecVar       (* x++ ++x x-- --x     incdec.cpp evaluate_incdec: var->value += 1, no check *)
 | PIncDecElem1     (* a[i]++ ...          incdec.cpp: array_values[i] += 1, no check; read narrows *)
-| PReturn          (* return e;           call_impl.cpp:6786 clamps a negative result of an unsigned function; the declared result type is never consulted for a range check *)
+| PReturn          (* return e;           call_impl.cpp:6822 clamps a negative result of an unsigned function; the declared result type is never consulted for a range check *)
 | PElem1           (* a[i] = e;           CommonOperations::assign_array_element_safe: clamp, check; read narrows *)
 | PElem1Compound   (* a[i] op= e;         same store as PElem1 (old value read through the narrowing read) *)
 | PElemN           (* m[i][j] = e;        ArrayManager::setMultidimensionalArrayElement: clamp only *)
-| PLit1            (* T[n] a = [..];      CommonOperations::assign_array_literal: clamp only; read narrows *)
-| PLitN            (* T[n][m] a = [[..]]; same, multi-dimensional storage: clamp only *)
-| PGlobalArr       (* global T[n] a=[..]; same store, but a global array has lost is_unsigned: no clamp at all *)
+| PLit1            (* T[n] a = [..];      ArrayManager (arrays/manager.cpp), 1-D literal loop of the array declaration: clamp only; read narrows *)
+| PLitN            (* T[n][m] a = [[..]]; ArrayManager::processArrayLiteralRecursive: clamp only *)
+| PGlobalArr       (* global T[n] a=[..]; CommonOperations::assign_array_literal_to_variable, and a global array has lost is_unsigned: no clamp at all *)
 | PAssignFromElemN (* x = m[i][j];        the value passes consume_numeric_typed_value: pointer-looking values skip the check *).
 
 (* the value a later read of the cell yields (what the property speaks about), or the error *)
